@@ -286,6 +286,268 @@ fn rel_cluster(points: &[SpacePoint]) -> String {
     "holds".to_string()
 }
 
+
+// ---------------------------------------------------------------- vertexing
+type T8 = [u64; 8];
+fn trk(b: T8) -> Track {
+    let f = |k: usize| f64::from_bits(b[k]);
+    Track::verif_from_params([f(0), f(1), f(2), f(3), f(4), f(5)], f(6), f(7))
+}
+fn tbits(t: &Track) -> T8 {
+    let p = t.verif_params();
+    [
+        p[0].to_bits(),
+        p[1].to_bits(),
+        p[2].to_bits(),
+        p[3].to_bits(),
+        p[4].to_bits(),
+        p[5].to_bits(),
+        t.t_inner().to_bits(),
+        t.t_outer().to_bits(),
+    ]
+}
+struct TClasses {
+    reps: Vec<Track>,
+    ids: Vec<usize>,
+}
+fn tclassify(tracks: &[Track]) -> TClasses {
+    let mut reps: Vec<Track> = Vec::new();
+    let mut ids = Vec::new();
+    for t in tracks {
+        // `==`, or bit-identical (a track with a NaN parameter is not `==` to itself)
+        let i = match reps.iter().position(|q| q == t || tbits(q) == tbits(t)) {
+            Some(i) => i,
+            None => {
+                reps.push(*t);
+                reps.len() - 1
+            }
+        };
+        ids.push(i);
+    }
+    TClasses { reps, ids }
+}
+/// class id of a track of the output (`?` if it is `==` to no input track)
+fn tid(c: &TClasses, t: &Track) -> String {
+    match c.reps.iter().position(|q| q == t || tbits(q) == tbits(t)) {
+        Some(i) => i.to_string(),
+        None => "?".to_string(),
+    }
+}
+fn tclasses_str(reps: &[Track]) -> String {
+    let v: Vec<String> = reps
+        .iter()
+        .map(|t| tbits(t).iter().map(|x| format!("{x:016x}")).collect::<Vec<_>>().join("."))
+        .collect();
+    join(&v, ";")
+}
+fn parse_tracks(classes: &str, pts: &str) -> Option<Vec<Track>> {
+    let mut reps = Vec::new();
+    for c in split(classes, ';') {
+        let f: Vec<&str> = c.split('.').collect();
+        if f.len() != 8 {
+            return None;
+        }
+        let mut b = [0u64; 8];
+        for k in 0..8 {
+            b[k] = u64::from_str_radix(f[k], 16).ok()?;
+        }
+        reps.push(trk(b));
+    }
+    let mut out = Vec::new();
+    for t in split(pts, ',') {
+        out.push(*reps.get(t.parse::<usize>().ok()?)?);
+    }
+    Some(out)
+}
+// the two filters of find_vertices (vertex_fitting.rs:33-36) with the parameters of reconstruction.rs:334-337
+fn long_enough(t: &Track) -> bool {
+    rec::verif_helix_arc_length(t.verif_params(), t.t_inner(), t.t_outer()) > Length::new::<centimeter>(3.5)
+}
+fn close_beam(t: &Track) -> bool {
+    let p = t.verif_params();
+    let (x0, y0, r) = (Length::new::<meter>(p[0]), Length::new::<meter>(p[1]), Length::new::<meter>(p[3]));
+    (r - x0.hypot(y0)).abs() < Length::new::<centimeter>(5.3)
+}
+fn beam_z(t: &Track) -> Length {
+    rec::verif_helix_closest_to_beamline(t.verif_params()).z
+}
+fn cluster_distance() -> Length {
+    Length::new::<centimeter>(3.4)
+}
+
+fn observe_vertex(tracks: &[Track]) -> String {
+    let c = tclassify(tracks);
+    let v = tracks.to_vec();
+    match catch(move || find_vertices(v)) {
+        None => "panic".to_string(),
+        Some(res) => {
+            let prim = match &res.primary {
+                None => "none".to_string(),
+                Some(vi) => join(&vi.tracks.iter().map(|(t, _)| tid(&c, t)).collect::<Vec<_>>(), ","),
+            };
+            let rem: Vec<String> = res.remainder.iter().map(|t| tid(&c, t)).collect();
+            format!("ok {} | {}", prim, join(&rem, ","))
+        }
+    }
+}
+fn vertex_case_line(tracks: &[Track]) -> String {
+    let c = tclassify(tracks);
+    let flags: Vec<String> = c
+        .reps
+        .iter()
+        .map(|t| format!("{}{}", long_enough(t) as u8, close_beam(t) as u8))
+        .collect();
+    let filtered: Vec<Track> = tracks.iter().filter(|t| long_enough(t) && close_beam(t)).copied().collect();
+    let sorted = match catch(move || rec::verif_beamline_clusters(filtered, cluster_distance())) {
+        None => "panic".to_string(),
+        Some(cl) => {
+            let ids: Vec<String> = cl.iter().flat_map(|(ts, _)| ts.iter().map(|t| tid(&c, t))).collect();
+            join(&ids, ",")
+        }
+    };
+    let z: Vec<Length> = c.reps.iter().map(beam_z).collect();
+    let rows: Vec<Vec<usize>> = (0..z.len())
+        .map(|i| (0..z.len()).filter(|&j| (z[i] - z[j]).abs() < cluster_distance()).collect())
+        .collect();
+    let rb: Vec<String> = c.reps.iter().map(|t| format!("{:016x}", t.verif_params()[3].to_bits())).collect();
+    format!(
+        "c15v {} {} {} {} {} {}",
+        tclasses_str(&c.reps),
+        join(&c.ids, ","),
+        join(&flags, ","),
+        sorted,
+        near_str(&rows),
+        join(&rb, ",")
+    )
+}
+fn rel_vertex(tracks: &[Track]) -> String {
+    let c = tclassify(tracks);
+    for t in tracks {
+        if t != t {
+            return "fails eq-not-reflexive".to_string();
+        }
+    }
+    let v = tracks.to_vec();
+    let res = match catch(move || find_vertices(v)) {
+        None => return "fails panic".to_string(),
+        Some(r) => r,
+    };
+    let mut count = vec![0i64; c.reps.len()];
+    for &i in &c.ids {
+        count[i] += 1;
+    }
+    let mut out: Vec<Track> = res.remainder.clone();
+    for vi in res.primary.iter().chain(res.secondaries.iter()) {
+        out.extend(vi.tracks.iter().map(|(t, _)| *t));
+    }
+    for t in out {
+        match c.reps.iter().position(|q| *q == t) {
+            Some(i) => count[i] -= 1,
+            None => return "fails foreign-track".to_string(),
+        }
+    }
+    if let Some(i) = count.iter().position(|&x| x != 0) {
+        return format!("fails conservation class {i} balance {}", count[i]);
+    }
+    if let Some(vi) = &res.primary {
+        if vi.tracks.len() < 2 {
+            return format!("fails primary with {} tracks", vi.tracks.len());
+        }
+    }
+    "holds".to_string()
+}
+
+fn gen_tracks(r: &mut Rng) -> (&'static str, Vec<Track>) {
+    let n = r.range(0, 8) as usize;
+    let nv = r.range(1, 3) as usize;
+    let mut zv: Vec<f64> = vec![uni_in(r, -0.5, 0.5)];
+    for k in 1..nv {
+        // further vertices: far away, or exactly around the 3.4 cm chaining distance
+        let step = r.pick(&[0.5, 0.1, 0.034, 0.0339, 0.0341, 0.068]);
+        zv.push(zv[k - 1] + step);
+    }
+    let radii = [0.25, 0.5, 1.0, 0.75];
+    let mut out: Vec<Track> = Vec::new();
+    let mut label = "tracks";
+    for _ in 0..n {
+        if !out.is_empty() && r.chance(1, 6) {
+            // identical track
+            let t = out[r.below(out.len() as u64) as usize];
+            out.push(t);
+            continue;
+        }
+        let big_r = if r.chance(2, 3) { r.pick(&radii) } else { uni_in(r, 0.1, 3.0) };
+        let d = match r.below(8) {
+            0 => 0.0529,
+            1 => 0.0531,
+            2 => -0.0529,
+            3 => -0.0531,
+            4 => 0.2,
+            5 => 0.0,
+            _ => uni_in(r, -0.05, 0.05),
+        };
+        let a = uni_in(r, -PI, PI);
+        let (x0, y0) = ((big_r + d) * a.cos(), (big_r + d) * a.sin());
+        let phi0 = uni_in(r, -PI, PI);
+        let mut h = if r.chance(1, 2) { 0.0 } else { uni_in(r, -1.0, 1.0) };
+        if h == 0.0 && r.chance(1, 8) {
+            h = -0.0;
+        }
+        let dz = match r.below(8) {
+            0 => 0.0,
+            1 => 0.01,
+            2 => -0.01,
+            3 => 0.0339,
+            4 => 0.0341,
+            5 => -0.034,
+            _ => uni_in(r, -0.05, 0.05),
+        };
+        let zt = r.pick(&zv) + dz;
+        // t at the closest approach to the beamline (as Helix::closest_to_beamline computes it)
+        let (cx, cy) = (big_r * phi0.cos(), big_r * phi0.sin());
+        let tc = (cx * (-y0) - cy * (-x0)).atan2(cx * (-x0) + cy * (-y0));
+        let z0 = zt - h / (2.0 * PI) * tc;
+        let t_in = uni_in(r, -1.0, 1.0);
+        let dt = match r.below(6) {
+            0 => 0.0,
+            1 => 0.035 / big_r * (1.0 - 1e-3),
+            2 => 0.035 / big_r * (1.0 + 1e-3),
+            _ => uni_in(r, 0.05, 1.5),
+        } * if r.chance(1, 2) { 1.0 } else { -1.0 };
+        out.push(Track::verif_from_params([x0, y0, z0, big_r, phi0, h], t_in, t_in + dt));
+    }
+    if !out.is_empty() && r.chance(1, 25) {
+        // a helix whose phase is not a number passes both filters and has no z at the beamline
+        label = "tracks-nan-phi0";
+        let k = r.below(out.len() as u64) as usize;
+        let p = out[k].verif_params();
+        out[k] = Track::verif_from_params([p[0], p[1], p[2], p[3], f64::NAN, p[5]], out[k].t_inner(), out[k].t_outer());
+    }
+    if r.chance(1, 3) {
+        for i in (1..out.len()).rev() {
+            let j = r.below(i as u64 + 1) as usize;
+            out.swap(i, j);
+        }
+    }
+    (label, out)
+}
+
+fn emit_vertex(s: &mut Sink, label: &str, tracks: &[Track]) {
+    let obs = observe_vertex(tracks);
+    let nontrivial = obs.starts_with("ok") && !obs.starts_with("ok none");
+    let line = vertex_case_line(tracks);
+    s.put(&line, &obs, label, nontrivial);
+    if tracks.iter().all(|t| t == t) {
+        let c = tclassify(tracks);
+        s.put(
+            &format!("relc15v {} {}", tclasses_str(&c.reps), join(&c.ids, ",")),
+            &rel_vertex(tracks),
+            &format!("rel-{label}"),
+            nontrivial,
+        );
+    }
+}
+
 // ---------------------------------------------------------------- generators
 fn uni(r: &mut Rng) -> f64 {
     (r.next() >> 11) as f64 / (1u64 << 53) as f64
@@ -532,7 +794,13 @@ pub fn run(tier: &str, seed: u64, s: &mut Sink) {
         }
         emit_largest(s, "largest-cluster-blob", &pts);
     }
-    let _ = (find_vertices as fn(Vec<Track>) -> _, 0);
+    // vertexing
+    emit_vertex(s, "tracks-empty", &[]);
+    let n_v = if thorough { 20000 } else { 2500 };
+    for _ in 0..n_v {
+        let (label, t) = gen_tracks(&mut r);
+        emit_vertex(s, label, &t);
+    }
 }
 
 /// implementation observation for a case line of this module (None: not one of mine)
@@ -549,6 +817,14 @@ pub fn observe_line(line: &str) -> Option<String> {
         }),
         "relc15" if f.len() == 3 => Some(match parse_points(f[1], f[2]) {
             Some(p) => rel_cluster(&p),
+            None => "bad-case".to_string(),
+        }),
+        "c15v" if f.len() == 7 => Some(match parse_tracks(f[1], f[2]) {
+            Some(t) => observe_vertex(&t),
+            None => "bad-case".to_string(),
+        }),
+        "relc15v" if f.len() == 3 => Some(match parse_tracks(f[1], f[2]) {
+            Some(t) => rel_vertex(&t),
             None => "bad-case".to_string(),
         }),
         _ => None,
